@@ -329,7 +329,7 @@ Definition lock_sites_expected : list (string * string * string) := [
   ("connState.TagDone", "_v0.tagMu.Lock", "deferred");
   ("connState.handleRequest", "_v0.sendMu.Lock", "explicit-with-calls:send");
   ("connState.handleRequest", "_v0.sendMu.Lock", "explicit-with-calls:send,newErr");
-  ("connState.handleRequest", "_v0.recvMu.Lock", "explicit-with-calls:atomic.AddInt32,atomic.LoadUint32,recv,_v0.server.log.Printf,_v0.StartTag,_v0.TagDone,atomic.LoadInt32,_v0.pendingWg.Add,func-literal,_v0.pendingWg.Done,_v0.handleRequests");
+  ("connState.handleRequest", "_v0.recvMu.Lock", "explicit-with-calls:atomic.AddInt32,recvFrame,_v0.server.log.Printf,_v0.StartTag,_v0.TagDone,atomic.LoadInt32,_v0.pendingWg.Add,func-literal,_v0.pendingWg.Done,_v0.handleRequests");
   ("fidRef.safelyGlobal", "_v0.server.renameMu.Lock", "deferred");
   ("fidRef.safelyRead", "_v0.server.renameMu.RLock", "deferred");
   ("fidRef.safelyRead", "_v0.pathNode.opMu.RLock", "deferred");
